@@ -180,6 +180,148 @@ class Skel:
 MARKUP = re.compile(r"\{%.*?%\}|\{\{.*?\}\}", re.S)
 
 
+def _check_path_shorthand(repo: Repo, res: Result, pth) -> None:
+    """C04-QUOTE (shorthand): ``Path.__str__`` writes a string segment *without* brackets only
+    under a test that makes the reader read it back as that one segment:
+
+      full     the test matches the WHOLE segment (``R.fullmatch(seg)`` / ``re.fullmatch``, or
+               ``match`` on a pattern ending in ``\\Z``) — a prefix test lets ``meta.title`` and
+               ``first name`` through;
+      word     every string R accepts is one WORD token of the expression tokenizer: R's first
+               character class is inside the token pattern's first class and contains no digit
+               (INTEGER / FLOAT win the alternation), its other classes are inside the token
+               pattern's repeated class — decided on exact bitmaps over all code points
+               (sa/rx.py), patterns folded from the source;
+      keyword  the segment is not one of the tokenizer's keywords (they get their own token
+               kinds, which the path parser does not accept after a dot).
+    """
+    from .. import rx
+    from ..guards import canon, conditions
+
+    mod = pth.module if hasattr(pth, "module") else repo.own_method("liquid.builtin.expressions.path.Path", "__str__").module
+    loops = [n for n in walk_no_nested(pth.node) if isinstance(n, (ast.For,))]
+    segvars: set[str] = set()
+    for lp in loops:
+        if "self.path" in text(lp.iter):
+            segvars |= {n.id for n in ast.walk(lp.target) if isinstance(n, ast.Name)}
+    if not segvars:
+        return  # reported by the loop rule above
+
+    tok = repo.resolve("liquid.builtin.expressions._tokenize")
+    tmod = repo.modules.get("liquid.builtin.expressions._tokenize") if hasattr(repo, "modules") else None
+    if tmod is None:
+        raise AnchorMissing("liquid.builtin.expressions._tokenize not found")
+    # the WORD rule of the tokenizer's rule table
+    word_pat = None
+    rules = tmod.assigns.get("_rules")
+    if isinstance(rules, (ast.Tuple, ast.List)):
+        for e in rules.elts:
+            if isinstance(e, ast.Tuple) and len(e.elts) == 2 and fold_str(repo, tmod, e.elts[0], 0) == "word":
+                word_pat = fold_str(repo, tmod, e.elts[1], 0)
+    if word_pat is None:
+        raise AnchorMissing("the expression tokenizer's WORD rule was not found in _tokenize._rules")
+    wshape = rx.simple_shape(word_pat)
+    if wshape is None:
+        raise AnchorMissing(f"the WORD token pattern {word_pat!r} is not of the simple one-class-then-repeat form")
+    kw = tmod.assigns.get("_keywords")
+    keywords = fold_str_set(repo, tmod, kw) if kw is not None else None
+    if not keywords:
+        raise AnchorMissing("_tokenize._keywords could not be folded")
+
+    def bare_write(st: ast.stmt) -> list[str]:
+        """segment variables the statement writes outside square brackets"""
+        out = []
+        if isinstance(st, (ast.If, ast.For, ast.While, ast.With, ast.Try, ast.FunctionDef)):
+            return out
+        for n in ast.walk(st):
+            if isinstance(n, ast.JoinedStr):
+                consts = "".join(str(v.value) for v in n.values if isinstance(v, ast.Constant))
+                if "[" in consts:
+                    continue
+                for v in n.values:
+                    if isinstance(v, ast.FormattedValue) and isinstance(v.value, ast.Name) and v.value.id in segvars:
+                        out.append(v.value.id)
+        # a bare `buf.append(segment)` / `yield segment` / `x += segment`
+        val = None
+        if isinstance(st, ast.Expr) and isinstance(st.value, ast.Call) and callee_name(st.value) in ("append", "write") and st.value.args:
+            val = st.value.args[0]
+        elif isinstance(st, ast.Expr) and isinstance(st.value, ast.Yield):
+            val = st.value.value
+        elif isinstance(st, ast.AugAssign):
+            val = st.value
+        elif isinstance(st, ast.Assign):
+            val = st.value
+        stack = [val] if val is not None else []
+        while stack:
+            e = stack.pop()
+            if isinstance(e, ast.Name) and e.id in segvars:
+                out.append(e.id)
+            elif isinstance(e, ast.IfExp):
+                stack += [e.body, e.orelse]
+            elif isinstance(e, ast.BinOp) and isinstance(e.op, ast.Add):
+                consts = [x.value for x in (e.left, e.right) if isinstance(x, ast.Constant) and isinstance(x.value, str)]
+                if not any("[" in c for c in consts):
+                    stack += [e.left, e.right]
+        return out
+
+    n_sites = 0
+    for st, conds in conditions(pth.node):
+        for seg in sorted(set(bare_write(st))):
+            # string segments only: int segments / nested paths are written in brackets by the
+            # other branches; a write with no isinstance(str) fact is judged all the same
+            n_sites += 1
+            res.ob(f"shorthand:{pth.qual}:{text(st)[:40]}", 3)
+            full = None
+            kw_ok = False
+            for c in conds:
+                if isinstance(c, ast.Call) and isinstance(c.func, ast.Attribute) and c.func.attr in ("fullmatch", "match") and c.args:
+                    recv = c.func.value
+                    pat = None
+                    arg = None
+                    if is_name(recv, "re") and len(c.args) >= 2:
+                        pat = fold_str(repo, mod, c.args[0], 0)
+                        arg = c.args[1]
+                    else:
+                        r = repo.resolve_in(mod, text(recv))
+                        if isinstance(r, tuple) and r[0] == "const" and isinstance(r[2], ast.Call) and callee_name(r[2]) == "compile" and r[2].args:
+                            pat = fold_str(repo, r[1], r[2].args[0], 0)
+                        arg = c.args[0]
+                    if pat is None or not is_name(arg, seg):
+                        continue
+                    whole = c.func.attr == "fullmatch" or rx.ends_anchored(pat)
+                    full = (pat, whole)
+                if isinstance(c, ast.Compare) and len(c.ops) == 1 and isinstance(c.ops[0], ast.NotIn) and is_name(c.left, seg):
+                    ks = fold_str_set(repo, mod, c.comparators[0])
+                    if ks is not None and keywords <= ks:
+                        kw_ok = True
+                    elif ks is not None:
+                        res.add("C04-QUOTE", pth.qual, "shorthand:keyword-set", f"Path.__str__ excludes {sorted(ks)[:6]}… from dot notation but the tokenizer's keywords also include {sorted(keywords - ks)[:6]}: `a['{sorted(keywords - ks)[0]}']` is written `a.{sorted(keywords - ks)[0]}`, which does not parse", pth.file, st.lineno)
+                        kw_ok = True
+            if full is None:
+                res.add("C04-QUOTE", pth.qual, "shorthand:untested", f"Path.__str__ writes the string segment `{seg}` without brackets (`{text(st)[:60]}`) under no pattern test: any key is written in dot notation", pth.file, st.lineno)
+                continue
+            pat, whole = full
+            if not whole:
+                res.add("C04-QUOTE", pth.qual, "shorthand:prefix-test", f"Path.__str__ decides dot notation with a prefix test (`match` on {pat!r}): `page['meta.title']` is written `page.meta.title` (a different path) and `page['first name']` as text that does not parse", pth.file, st.lineno)
+            shape = rx.simple_shape(pat)
+            if shape is None:
+                raise AnchorMissing(f"Path.__str__: the shorthand pattern {pat!r} is not of the simple one-class-then-repeat form; the inclusion in the WORD token cannot be decided")
+            first, rest, _n, _star = shape
+            wfirst, _wrest, _wn, wstar = wshape
+            digits = rx._category("digit")
+            w = rx.witness(first, wfirst & ~digits & rx._all())
+            if w is not None:
+                res.add("C04-QUOTE", pth.qual, "shorthand:first-char", f"Path.__str__ writes a segment starting with {w!r} (U+{ord(w):04X}) in dot notation; the tokenizer does not start a WORD token there (pattern {word_pat!r}, digits start a number): the text does not parse back to the same path", pth.file, st.lineno)
+            w = rx.witness(rest, wstar)
+            if w is not None:
+                res.add("C04-QUOTE", pth.qual, "shorthand:rest-char", f"Path.__str__ writes a segment containing {w!r} (U+{ord(w):04X}) in dot notation; the tokenizer's WORD token (pattern {word_pat!r}) stops there: the text does not parse back to the same path", pth.file, st.lineno)
+            if not kw_ok:
+                k0 = sorted(keywords)[0]
+                res.add("C04-QUOTE", pth.qual, "shorthand:keyword", f"Path.__str__ writes a segment equal to a tokenizer keyword in dot notation: `a['{k0}']` becomes `a.{k0}`, which the path parser rejects (keywords get their own token kind)", pth.file, st.lineno)
+    if n_sites == 0:
+        res.add("C04-QUOTE", pth.qual, "shorthand:none", "Path.__str__: no dot-notation write of a string segment found (the rule has nothing to decide)", pth.file, pth.line)
+
+
 def run(repo: Repo) -> Result:
     res = Result(PID)
     res.rules = ["C04-RAW", "C04-ORDER", "C04-COVER", "C04-SKEL", "C04-WORDS", "C04-QUOTE", "C04-PREC"]
@@ -390,6 +532,7 @@ def run(repo: Repo) -> Result:
     loops = [n for n in walk_no_nested(pth.node) if isinstance(n, ast.For)]
     if not loops or "self.path" not in text(loops[0].iter):
         res.add("C04-QUOTE", pth.qual, "loop", "Path.__str__ must run every segment of self.path through the same branches", pth.file, pth.line)
+    _check_path_shorthand(repo, res, pth)
     cy = repo.own_method("liquid.builtin.tags.cycle_tag.CycleNode", "__str__")
     res.ob("quote:CycleNode")
     if "token.value" in text(cy.node):
@@ -551,6 +694,10 @@ def selftest(repo: Repo):
     return [
         v("tablerow-pseudo-syntax", T + "tablerow_tag.py", 'return f"{{% tablerow {self.expression} %}}{self.block}{{% endtablerow %}}"', 'return f"tablerow({self.expression}) {{ {self.block} }}"', "C04-SKEL"),
         v("ifchanged-braces", T + "ifchanged_tag.py", 'return f"{{% ifchanged %}}{self.block}{{% endifchanged %}}"', 'return f"{{% ifchanged %}}{{ {self.block} }}{{% endifchanged %}}"', "C04-SKEL"),
+        v("path-shorthand-prefix-test", E + "path.py", "RE_PROPERTY.fullmatch(segment) and segment not in KEYWORDS", "RE_PROPERTY.match(segment) and segment not in KEYWORDS", "C04-QUOTE"),
+        v("path-shorthand-keywords", E + "path.py", "RE_PROPERTY.fullmatch(segment) and segment not in KEYWORDS", "RE_PROPERTY.fullmatch(segment)", "C04-QUOTE"),
+        v("path-shorthand-wide-class", E + "path.py", 'RE_PROPERTY = re.compile(r"[^\\W\\d][\\w-]*")', 'RE_PROPERTY = re.compile(r"[^\\W\\d][\\w.-]*")', "C04-QUOTE"),
+        v("path-shorthand-digit-first", E + "path.py", 'RE_PROPERTY = re.compile(r"[^\\W\\d][\\w-]*")', 'RE_PROPERTY = re.compile(r"\\w[\\w-]*")', "C04-QUOTE"),
         v("cycle-raw-group", T + "cycle_tag.py", 'name = f"{self.group}: " if self.group else ""', 'name = f"{self.group.token.value}: " if self.group else ""', "C04-QUOTE"),
         v("for-drops-else", T + "for_tag.py", '        default = ""\n\n        if self.default:\n            default = f"{{% else %}}{self.default}"\n\n        return f"{{% for {self.expression} %}}{self.block}{default}{{% endfor %}}"', '        return f"{{% for {self.expression} %}}{self.block}{{% endfor %}}"', "C04-COVER"),
         v("elsif-misspelt", "liquid/ast.py", 'return f"{{% elsif {self.expression} %}}{self.block}"', 'return f"{{% elif {self.expression} %}}{self.block}"', "C04-WORDS"),
